@@ -25,7 +25,12 @@ SPEC = {
                   "local copy (also after failed runs) is the server's content at its stored serial. The code as found "
                   "is proved to violate this in three ways (C25_unfixed_refuted; gapped delta list applied, 304 without "
                   "a copy fails the run, a partially applied delta survives a failed snapshot); it was corrected "
-                  "(notes/C25-fix.patch) and the corrected code is what is modelled, proved and checked.",
+                  "(notes/C25-fix.patch) and the corrected code is what is modelled, proved and checked. "
+                  "A server that rewrites its history (re-issues a serial with other content) is covered with one world "
+                  "per run: from ANY local copy, a notification listing a remembered delta serial with another hash, or "
+                  "another session, makes the run fetch the snapshot, and an Updated run is exactly that run's world's "
+                  "snapshot (C25_rewritten_history_refetched; per-run oracle proved of the model in "
+                  "C25_rewritten_model_satisfies_spec); an invisible rewriting is outside the premise.",
     "level_note": "Model hand-written from src/collector/rrdp/base.rs (try_update, update, not_modified, "
                   "snapshot_update, delta_update, calc_deltas), src/collector/rrdp/update.rs (Notification, "
                   "check_deltas, to_repository_state, SnapshotUpdate, DeltaUpdate, HashRead) and rpki 0.19.3 "
